@@ -143,13 +143,16 @@ Section Bytes.
       (* allocated standard clusters carry COPIED (strict = the C03 reading) *)
       (negb strict || s_l2_compressed v || (s_l2_offset v =? 0) || s_l2_copied v)) (nrange l2e).
 
-  Definition tables_ok (strict : bool) : bool :=
+  (* [cover]: the L1 table must be able to map the whole virtual disk (QEMU refuses an image whose L1 table is too
+     small; the library extends the table on demand, so the crash states of such an image are judged without it) *)
+  Definition tables_ok_gen (cover strict : bool) : bool :=
     (1 <=? h_rt_clusters h) &&
-    (* the L1 table must be able to map the whole virtual disk *)
-    (guest_clusters <=? h_l1_size h * l2e) &&
+    (negb cover || (guest_clusters <=? h_l1_size h * l2e)) &&
     forallb (fun i => rt_entry_ok (rt_entry i)) (nrange rt_entries) &&
     forallb (fun i => l1_entry_ok (l1_entry i)) (nrange (h_l1_size h)) &&
     forallb (fun i => (negb strict || s_l1_copied (l1_entry i)) && l2_table_ok strict i) l1_nonzero.
+
+  Definition tables_ok (strict : bool) : bool := tables_ok_gen true strict.
 
   (* C03: stored = refs for every cluster; at most one reference except through compressed data *)
   Definition refcounts_exact : bool :=
@@ -173,6 +176,8 @@ Section Bytes.
 
   Definition validb : bool := hdr_supported h && tables_ok true && refcounts_exact && copied_single.
   Definition safeb : bool := hdr_supported h && tables_ok false && refcounts_safe.
+  (* the same judgement for an image whose header lists fewer L1 entries than its virtual size needs *)
+  Definition safeb_short_l1 : bool := hdr_supported h && tables_ok_gen false false && refcounts_safe.
 
   (* leak list, for diagnostics and for C20's check() verdict *)
   Definition leaked : list N :=
